@@ -120,6 +120,29 @@ class Stream:
         pass
 
 
+class SyncDataset:
+    """A synchronous, SIZED collection that produces its records lazily (a dataset / record store with ``__len__``
+    and ``__iter__``): its length is known, its items exist only while somebody holds them."""
+
+    def __init__(self, census, n, make=None, name="d"):
+        self.census, self.n, self.name = census, n, name
+        self.make = make or (lambda i: W(i))
+
+    def __len__(self):
+        return self.n
+
+    def __iter__(self):
+        for i in range(self.n):
+            self.census.sample(f"pull {i} of {self.name}")
+            item = self.make(i)
+            for x in (item if isinstance(item, tuple) else (item,)):
+                if isinstance(x, W):
+                    self.census.track(x)
+            yield item
+            del item
+        self.census.sample(f"end of {self.name}")
+
+
 class Page:
     """A closeable class-based async iterator that KEEPS its records (a cursor, a result page, an adapter)."""
 
@@ -230,6 +253,10 @@ def cases(tier, seed, shard, nshards):
             idx += 1
             if idx % nshards == shard:
                 yield {"tool": name, "n": n}
+            if not TOOLS[name][4].get("pages"):
+                idx += 1
+                if idx % nshards == shard:
+                    yield {"tool": name, "n": n, "source": "sync_sized"}
         for pat in TEE_PATTERNS:
             idx += 1
             if idx % nshards == shard:
@@ -251,6 +278,8 @@ def run_tool(case, stats):
     streams = [Stream(census, n if not (opt.get("uneven") and s) else n // 2, make, f"s{s}") for s in range(nsrc)]
     if opt.get("pages"):
         streams = [PageStream(census, n, 5, sync_pages=opt["pages"] == "sync")]
+    elif case.get("source") == "sync_sized":
+        streams = [SyncDataset(census, n if not (opt.get("uneven") and s) else n // 2, make, f"d{s}") for s in range(nsrc)]
     produced = {"n": 0}
 
     async def main():
